@@ -29,6 +29,7 @@ import (
 	"go/token"
 	"go/types"
 	"os"
+	"path/filepath"
 	"sort"
 	"strings"
 
@@ -152,6 +153,98 @@ func Canonicalize(pkgs []*packages.Package, reload func(map[string][]byte) ([]*p
 			cn.Notes = append(cn.Notes, fmt.Sprintf("renaming back was abandoned (the renamed program does not type-check: %v)", err))
 		}
 	}
+	// second stage: a known function that came back under its own name but as a method (or the other way round),
+	// or with its parameters in another order, is given its known signature again
+	currentOverlay = cn.Overlay
+	if edits, notes := computeSignatureBacks(pkgs); len(edits) > 0 && reload != nil {
+		ov := map[string][]byte{}
+		for f, b := range cn.Overlay {
+			ov[f] = b
+		}
+		okRead := true
+		for f, es := range edits {
+			src, have := cn.Overlay[f]
+			if !have {
+				var err error
+				if src, err = os.ReadFile(f); err != nil {
+					okRead = false
+					break
+				}
+			}
+			ov[f] = applyEdits(src, es)
+		}
+		if okRead {
+			if np, err := reload(ov); err == nil {
+				pkgs = np
+				for f, b := range ov {
+					cn.Overlay[f] = b
+				}
+				cn.Notes = append(cn.Notes, notes...)
+			} else {
+				cn.Notes = append(cn.Notes, fmt.Sprintf("restoring known signatures was abandoned (the rewritten program does not type-check: %v)", err))
+			}
+		}
+	}
+	// third stage: a local closure that is only ever called (`f := func(..){..}` ... `f(x)`) is what a helper
+	// function looks like when it is kept inside its only user: its calls are replaced by the literal itself,
+	// which the unwrapping step then turns into plain statements
+	if reload != nil {
+		for _, pk := range pkgs {
+			if !analysedPkg(pk.PkgPath) {
+				continue
+			}
+			for _, name := range pk.CompiledGoFiles {
+				src, have := cn.Overlay[name]
+				if !have {
+					b, err := os.ReadFile(name)
+					if err != nil {
+						continue
+					}
+					src = b
+				}
+				if !bytes.Contains(src, []byte(":= func(")) {
+					continue
+				}
+				out, n := inlineLocalClosures(name, src)
+				if n == 0 {
+					continue
+				}
+				ov := map[string][]byte{}
+				for f, b := range cn.Overlay {
+					ov[f] = b
+				}
+				ov[name] = out
+				np, err := reload(ov)
+				if err != nil {
+					cn.Notes = append(cn.Notes, fmt.Sprintf("local closures in %s were left alone (the rewritten program does not type-check: %v)", filepath.Base(name), err))
+					continue
+				}
+				pkgs = np
+				cn.Overlay[name] = out
+				cn.Notes = append(cn.Notes, fmt.Sprintf("%d call(s) of local closures in %s replaced by the closure's literal", n, filepath.Base(name)))
+				content := map[string][]byte{name: out}
+				if k := flattenFile(name, content, func() error {
+					ov2 := map[string][]byte{}
+					for f, b := range cn.Overlay {
+						ov2[f] = b
+					}
+					ov2[name] = content[name]
+					_, err := reload(ov2)
+					return err
+				}); k > 0 {
+					cn.Overlay[name] = content[name]
+					ov3 := map[string][]byte{}
+					for f, b := range cn.Overlay {
+						ov3[f] = b
+					}
+					if np, err := reload(ov3); err == nil {
+						pkgs = np
+					}
+					cn.Notes = append(cn.Notes, fmt.Sprintf("%d closure literal(s) in %s unwrapped into blocks", k, filepath.Base(name)))
+				}
+			}
+		}
+	}
 	for _, pk := range pkgs {
 		if !analysedPkg(pk.PkgPath) {
 			continue
@@ -233,6 +326,49 @@ func canonPkg(cn *Canon, pk *packages.Package) error {
 			}
 		}
 	}
+	// a method whose receiver was unused may have become a plain function of the same name (or a function may have
+	// been hung onto a receiver it does not need): same name, same signature once the receiver is set aside
+	dropFirst := func(sig string) string {
+		i := strings.Index(sig, " -> ")
+		if i < 2 {
+			return sig
+		}
+		ps := splitTop(sig[1 : i-1])
+		if len(ps) == 0 {
+			return sig
+		}
+		return "(" + strings.Join(ps[1:], ", ") + ")" + sig[i:]
+	}
+	baseOf := func(n string) string { return n[strings.LastIndex(n, ".")+1:] }
+	for _, m := range missing {
+		already := false
+		for _, k := range cn.Aliases {
+			if k == m {
+				already = true
+			}
+		}
+		if already {
+			continue
+		}
+		var cands []string
+		for _, u := range unknown {
+			if isAlias[u] || baseOf(u) != baseOf(m) {
+				continue
+			}
+			mIsMethod, uIsMethod := strings.HasPrefix(m, "("), strings.HasPrefix(u, "(")
+			if mIsMethod && !uIsMethod && dropFirst(knownFuncs[m]) == SigKey(decl[u]) {
+				cands = append(cands, u)
+			}
+			if !mIsMethod && uIsMethod && knownFuncs[m] == dropFirst(SigKey(decl[u])) {
+				cands = append(cands, u)
+			}
+		}
+		if len(cands) == 1 {
+			cn.Aliases[cands[0]] = m
+			isAlias[cands[0]] = true
+			cn.Notes = append(cn.Notes, fmt.Sprintf("%s is treated as %s (same name, same signature apart from the receiver)", cands[0], m))
+		}
+	}
 	helpers := map[string]bool{}
 	for _, u := range unknown {
 		if !isAlias[u] {
@@ -266,6 +402,52 @@ func canonPkg(cn *Canon, pk *packages.Package) error {
 	}
 	failed := map[string]bool{}
 	changed := false
+	// helpers that (directly or through other helpers) call themselves cannot be inlined away: every round would
+	// bring a new call of the helper into the caller. They stay as they are (opaque calls for the rules).
+	if c0, err := recheck(pk.PkgPath, names, content, imp, goVersion); err == nil {
+		decls0 := declaredFuncs(c0)
+		callees := map[string]map[string]bool{}
+		for h := range helpers {
+			callees[h] = map[string]bool{}
+			if fd := decls0[h]; fd != nil && fd.Body != nil {
+				ast.Inspect(fd.Body, func(n ast.Node) bool {
+					if call, ok := n.(*ast.CallExpr); ok {
+						if f := typeutil.StaticCallee(c0.info, call); f != nil && helpers[shortFuncName(f)] {
+							callees[h][shortFuncName(f)] = true
+						}
+					}
+					return true
+				})
+			}
+		}
+		var rec []string
+		for h := range helpers {
+			seen := map[string]bool{}
+			stack := []string{}
+			for k := range callees[h] {
+				stack = append(stack, k)
+			}
+			for len(stack) > 0 {
+				x := stack[len(stack)-1]
+				stack = stack[:len(stack)-1]
+				if seen[x] {
+					continue
+				}
+				seen[x] = true
+				for k := range callees[x] {
+					stack = append(stack, k)
+				}
+			}
+			if seen[h] {
+				rec = append(rec, h)
+			}
+		}
+		sort.Strings(rec)
+		for _, h := range rec {
+			delete(helpers, h)
+			cn.Notes = append(cn.Notes, fmt.Sprintf("new helper %s is recursive: not inlined, its calls stay opaque", h))
+		}
+	}
 	for round := 0; round < 200; round++ {
 		c, err := recheck(pk.PkgPath, names, content, imp, goVersion)
 		if err != nil {
@@ -944,6 +1126,7 @@ var theFlattener = &flattener{}
 //   - its named results become the function's named results (names are added to an unnamed result list of the
 //     same arity; if the function has named results they must be the same names). They must still hold their zero
 //     value when the tail is reached: no statement before it assigns to them.
+//
 // The result is re-type-checked like every other step.
 func spliceTail(f *ast.File) bool {
 	for _, d := range f.Decls {
@@ -984,6 +1167,7 @@ func spliceTail(f *ast.File) bool {
 			continue
 		}
 		// results
+		var resets []ast.Stmt
 		var litNames []string
 		litFields := 0
 		if lit.Type.Results != nil {
@@ -1006,11 +1190,38 @@ func spliceTail(f *ast.File) bool {
 					outer = append(outer, nm.Name)
 				}
 			}
+			fresh := false
 			switch {
 			case len(outer) == 0 && outerFields == len(litNames) && litFields == len(litNames):
+				// The function's results get the literal's names. A local of that name declared at the top level
+				// before the tail (`args, err := ...`) thereby BECOMES the result variable; that is harmless if no
+				// closure created before the tail can still observe it (nothing else runs after the tail), and the
+				// literal's results start from their zero value, which an explicit reset re-establishes.
+				captured := false
+				for _, st := range fd.Body.List[:len(fd.Body.List)-1] {
+					ast.Inspect(st, func(n ast.Node) bool {
+						if fl, ok := n.(*ast.FuncLit); ok {
+							ast.Inspect(fl.Body, func(m ast.Node) bool {
+								if id, ok := m.(*ast.Ident); ok {
+									for _, nm := range litNames {
+										if id.Name == nm && nm != "_" {
+											captured = true
+										}
+									}
+								}
+								return !captured
+							})
+						}
+						return !captured
+					})
+				}
+				if captured {
+					continue
+				}
 				for i, fld := range fd.Type.Results.List {
 					fld.Names = []*ast.Ident{ast.NewIdent(litNames[i])}
 				}
+				fresh = true
 			case len(outer) == len(litNames):
 				same := true
 				for i := range outer {
@@ -1026,6 +1237,16 @@ func spliceTail(f *ast.File) bool {
 			}
 			// untouched before the tail
 			touched := false
+			if fresh {
+				for i, nm := range litNames {
+					if nm == "_" {
+						continue
+					}
+					// name = *new(T)
+					resets = append(resets, &ast.AssignStmt{Lhs: []ast.Expr{ast.NewIdent(nm)}, Tok: token.ASSIGN, Rhs: []ast.Expr{
+						&ast.StarExpr{X: &ast.CallExpr{Fun: ast.NewIdent("new"), Args: []ast.Expr{fd.Type.Results.List[i].Type}}}}})
+				}
+			}
 			isName := func(e ast.Expr) bool {
 				id, ok := e.(*ast.Ident)
 				if !ok {
@@ -1039,6 +1260,9 @@ func spliceTail(f *ast.File) bool {
 				return false
 			}
 			for _, st := range fd.Body.List[:len(fd.Body.List)-1] {
+				if fresh {
+					break
+				}
 				if as, ok := st.(*ast.AssignStmt); ok && as.Tok == token.DEFINE {
 					for _, l := range as.Lhs {
 						if isName(l) {
@@ -1168,6 +1392,7 @@ func spliceTail(f *ast.File) bool {
 		if clash {
 			continue
 		}
+		inner = append(append([]ast.Stmt{}, resets...), inner...)
 		inner = append(inner, lit.Body.List...)
 		out := append([]ast.Stmt{}, fd.Body.List[:len(fd.Body.List)-1]...)
 		fd.Body.List = append(out, inner...)
@@ -1510,4 +1735,539 @@ func applyEdits(src []byte, es []renameEdit) []byte {
 type KnownType struct {
 	Shape  string
 	Fields [][2]string // struct fields: name, type string
+}
+
+// splitTop splits s at top-level commas.
+func splitTop(s string) []string {
+	var out []string
+	depth, start := 0, 0
+	for i, r := range s {
+		switch r {
+		case '(', '[', '{':
+			depth++
+		case ')', ']', '}':
+			depth--
+		case ',':
+			if depth == 0 {
+				out = append(out, strings.TrimSpace(s[start:i]))
+				start = i + 1
+			}
+		}
+	}
+	if t := strings.TrimSpace(s[start:]); t != "" {
+		out = append(out, t)
+	}
+	return out
+}
+
+// computeSignatureBacks: a known function f is missing, and exactly one new function of the same package has the
+// SAME NAME and the same parameters as a multiset of pairwise distinct types (receiver counted as a parameter) and
+// the same results: the function was turned into a method, a method into a function, or its parameters were
+// reordered. Its declaration is rewritten to the known form and every call is rewritten to match; the arguments of
+// every call must be plain expressions (identifiers, selectors, literals), so that reordering them cannot reorder
+// side effects. Anything else (a method value, a call with a computed argument, a use from another package) leaves
+// the function alone.
+func computeSignatureBacks(pkgs []*packages.Package) (map[string][]renameEdit, []string) {
+	edits := map[string][]renameEdit{}
+	var notes []string
+	for _, pk := range pkgs {
+		if !analysedPkg(pk.PkgPath) {
+			continue
+		}
+		prefix := strings.ReplaceAll(pk.PkgPath, ModPath, "dig")
+		decl := map[string]*types.Func{}
+		declAST := map[string]*ast.FuncDecl{}
+		for _, f := range pk.Syntax {
+			for _, d := range f.Decls {
+				if fd, ok := d.(*ast.FuncDecl); ok {
+					if o, ok := pk.TypesInfo.Defs[fd.Name].(*types.Func); ok {
+						decl[shortFuncName(o)] = o
+						declAST[shortFuncName(o)] = fd
+					}
+				}
+			}
+		}
+		base := func(n string) string { return n[strings.LastIndex(n, ".")+1:] }
+		var missing, unknown []string
+		for n := range knownFuncs {
+			if knownPkgOf(n) == prefix {
+				if _, ok := decl[n]; !ok {
+					missing = append(missing, n)
+				}
+			}
+		}
+		for n := range decl {
+			if _, ok := knownFuncs[n]; !ok {
+				unknown = append(unknown, n)
+			}
+		}
+		sort.Strings(missing)
+		sort.Strings(unknown)
+		for _, m := range missing {
+			var cands []string
+			for _, u := range unknown {
+				if base(u) == base(m) {
+					cands = append(cands, u)
+				}
+			}
+			sameBase := 0
+			for _, m2 := range missing {
+				if base(m2) == base(m) {
+					sameBase++
+				}
+			}
+			if len(cands) != 1 || sameBase != 1 {
+				continue
+			}
+			u := cands[0]
+			ks := knownFuncs[m]
+			i := strings.Index(ks, " -> ")
+			if i < 0 || strings.Contains(ks[:i], "...") {
+				continue
+			}
+			kp := splitTop(ks[1 : i-1])
+			cs := SigKey(decl[u])
+			j := strings.Index(cs, " -> ")
+			if j < 0 || strings.Contains(cs[:j], "...") || cs[j:] != ks[i:] {
+				continue
+			}
+			cp := splitTop(cs[1 : j-1])
+			if len(kp) != len(cp) || len(kp) == 0 {
+				continue
+			}
+			perm := make([]int, len(kp)) // known position -> current position
+			distinct := map[string]bool{}
+			okPerm := true
+			for a, t := range kp {
+				if distinct[t] {
+					okPerm = false
+				}
+				distinct[t] = true
+				perm[a] = -1
+				for b, t2 := range cp {
+					if t2 == t {
+						perm[a] = b
+					}
+				}
+				if perm[a] < 0 {
+					okPerm = false
+				}
+			}
+			if !okPerm {
+				continue
+			}
+			fd := declAST[u]
+			file := pk.Fset.Position(fd.Pos()).Filename
+			src, err := os.ReadFile(file)
+			if b, ok := currentOverlay[file]; ok {
+				src, err = b, nil
+			}
+			if err != nil {
+				continue
+			}
+			text := func(n ast.Node) string {
+				return string(src[pk.Fset.Position(n.Pos()).Offset:pk.Fset.Position(n.End()).Offset])
+			}
+			// flattened declared parameters (name, type text)
+			type fld struct{ name, typ string }
+			var flat []fld
+			addFields := func(fl *ast.FieldList) {
+				if fl == nil {
+					return
+				}
+				for _, f := range fl.List {
+					if len(f.Names) == 0 {
+						flat = append(flat, fld{"_", text(f.Type)})
+					}
+					for _, nm := range f.Names {
+						flat = append(flat, fld{nm.Name, text(f.Type)})
+					}
+				}
+			}
+			addFields(fd.Recv)
+			addFields(fd.Type.Params)
+			if len(flat) != len(cp) {
+				continue
+			}
+			knownIsMethod := strings.HasPrefix(m, "(")
+			var hdr strings.Builder
+			hdr.WriteString("func ")
+			rest := 0
+			if knownIsMethod {
+				f0 := flat[perm[0]]
+				hdr.WriteString("(" + f0.name + " " + f0.typ + ") ")
+				rest = 1
+			}
+			hdr.WriteString(base(m) + "(")
+			for a := rest; a < len(perm); a++ {
+				if a > rest {
+					hdr.WriteString(", ")
+				}
+				hdr.WriteString(flat[perm[a]].name + " " + flat[perm[a]].typ)
+			}
+			hdr.WriteString(")")
+			var es []renameEdit
+			es = append(es, renameEdit{file: file, off: pk.Fset.Position(fd.Pos()).Offset, end: pk.Fset.Position(fd.Type.Params.End()).Offset, text: hdr.String()})
+			// calls
+			obj := decl[u]
+			okCalls := true
+			uses := map[*ast.Ident]bool{}
+			for id, o := range pk.TypesInfo.Uses {
+				if o == obj {
+					uses[id] = true
+				}
+			}
+			for _, p2 := range pkgs {
+				if p2 != pk {
+					for _, o := range p2.TypesInfo.Uses {
+						if o == obj {
+							okCalls = false
+						}
+					}
+				}
+			}
+			handled := 0
+			for _, f := range pk.Syntax {
+				fname := pk.Fset.Position(f.Pos()).Filename
+				fsrc, err := os.ReadFile(fname)
+				if b, ok := currentOverlay[fname]; ok {
+					fsrc, err = b, nil
+				}
+				if err != nil {
+					okCalls = false
+					break
+				}
+				ftext := func(n ast.Node) string {
+					return string(fsrc[pk.Fset.Position(n.Pos()).Offset:pk.Fset.Position(n.End()).Offset])
+				}
+				ast.Inspect(f, func(n ast.Node) bool {
+					call, ok := n.(*ast.CallExpr)
+					if !ok {
+						return true
+					}
+					var actual []ast.Expr
+					switch fun := call.Fun.(type) {
+					case *ast.Ident:
+						if !uses[fun] {
+							return true
+						}
+					case *ast.SelectorExpr:
+						if !uses[fun.Sel] {
+							return true
+						}
+						actual = append(actual, fun.X)
+					default:
+						return true
+					}
+					handled++
+					actual = append(actual, call.Args...)
+					if len(actual) != len(cp) || call.Ellipsis.IsValid() {
+						okCalls = false
+						return true
+					}
+					for _, a := range actual {
+						if !plainExpr(a) {
+							okCalls = false
+						}
+					}
+					var sb strings.Builder
+					k := 0
+					if knownIsMethod {
+						sb.WriteString(ftext(actual[perm[0]]) + ".")
+						k = 1
+					}
+					sb.WriteString(base(m) + "(")
+					for a := k; a < len(perm); a++ {
+						if a > k {
+							sb.WriteString(", ")
+						}
+						sb.WriteString(ftext(actual[perm[a]]))
+					}
+					sb.WriteString(")")
+					es = append(es, renameEdit{file: fname, off: pk.Fset.Position(call.Pos()).Offset, end: pk.Fset.Position(call.End()).Offset, text: sb.String()})
+					return true
+				})
+			}
+			if !okCalls || handled != len(uses) {
+				continue
+			}
+			for _, e := range es {
+				edits[e.file] = append(edits[e.file], e)
+			}
+			notes = append(notes, fmt.Sprintf("%s is the known %s with another receiver/parameter arrangement: declaration and %d call(s) rewritten to the known signature", u, m, handled))
+		}
+	}
+	return edits, notes
+}
+
+// currentOverlay is the overlay in force while the second canonicalisation stage computes its edits.
+var currentOverlay = map[string][]byte{}
+
+// inlineLocalClosures rewrites, in every declared function of the file, each local `f := func(...) ... {...}` whose
+// name occurs nowhere else in that function except as the callee of direct calls: every call f(args) becomes
+// (func(...) ... {...})(args) and the definition disappears. Conditions (purely syntactic, conservative):
+// the literal does not mention f; no name the literal mentions is declared anywhere in the enclosing function
+// after the definition outside the literal (a call site could otherwise see another variable of that name than the
+// definition site did). Returns the new source and the number of calls rewritten.
+func inlineLocalClosures(name string, src []byte) ([]byte, int) {
+	fset := token.NewFileSet()
+	f, err := parser.ParseFile(fset, name, src, parser.ParseComments|parser.SkipObjectResolution)
+	if err != nil {
+		return src, 0
+	}
+	total := 0
+	for _, d := range f.Decls {
+		fd, ok := d.(*ast.FuncDecl)
+		if !ok || fd.Body == nil {
+			continue
+		}
+		for rounds := 0; rounds < 10; rounds++ {
+			// find a candidate definition
+			var defBlock *[]ast.Stmt
+			defIdx := -1
+			var lit *ast.FuncLit
+			var fname string
+			var find func(list *[]ast.Stmt)
+			visitStmt := func(st ast.Stmt) {}
+			find = func(list *[]ast.Stmt) {
+				for i, st := range *list {
+					if lit != nil {
+						return
+					}
+					if as, ok := st.(*ast.AssignStmt); ok && as.Tok == token.DEFINE && len(as.Lhs) == 1 && len(as.Rhs) == 1 {
+						if id, ok := as.Lhs[0].(*ast.Ident); ok {
+							if l, ok := as.Rhs[0].(*ast.FuncLit); ok && id.Name != "_" {
+								defBlock, defIdx, lit, fname = list, i, l, id.Name
+								return
+							}
+						}
+					}
+					visitStmt(st)
+				}
+			}
+			visitStmt = func(st ast.Stmt) {
+				ast.Inspect(st, func(n ast.Node) bool {
+					if lit != nil {
+						return false
+					}
+					switch x := n.(type) {
+					case *ast.BlockStmt:
+						find(&x.List)
+						return false
+					case *ast.CaseClause:
+						find(&x.Body)
+						return false
+					case *ast.CommClause:
+						find(&x.Body)
+						return false
+					case *ast.FuncLit:
+						find(&x.Body.List)
+						return false
+					}
+					return true
+				})
+			}
+			find(&fd.Body.List)
+			if lit == nil {
+				break
+			}
+			// all identifiers named fname in the function: the definition and call positions only
+			okUse := true
+			var calls []*ast.CallExpr
+			callFun := map[*ast.Ident]bool{}
+			ast.Inspect(fd, func(n ast.Node) bool {
+				if c, ok := n.(*ast.CallExpr); ok {
+					if id, ok := c.Fun.(*ast.Ident); ok && id.Name == fname {
+						calls = append(calls, c)
+						callFun[id] = true
+					}
+				}
+				return true
+			})
+			// every call stands where the unwrapping step can reach it (a statement of its own, the right-hand side
+			// of an assignment, an operand of a return); a call inside a condition or a larger expression would stay
+			// an immediately-invoked literal, which helps nobody
+			direct := map[*ast.CallExpr]bool{}
+			ast.Inspect(fd, func(n ast.Node) bool {
+				switch x := n.(type) {
+				case *ast.ExprStmt:
+					if c, ok := x.X.(*ast.CallExpr); ok {
+						direct[c] = true
+					}
+				case *ast.AssignStmt:
+					for _, r := range x.Rhs {
+						if c, ok := r.(*ast.CallExpr); ok {
+							direct[c] = true
+						}
+					}
+				case *ast.ReturnStmt:
+					for _, r := range x.Results {
+						if c, ok := r.(*ast.CallExpr); ok {
+							direct[c] = true
+						}
+					}
+				}
+				return true
+			})
+			for _, c := range calls {
+				if !direct[c] {
+					okUse = false
+				}
+			}
+			defIdent := (*defBlock)[defIdx].(*ast.AssignStmt).Lhs[0].(*ast.Ident)
+			ast.Inspect(fd, func(n ast.Node) bool {
+				if id, ok := n.(*ast.Ident); ok && id.Name == fname && id != defIdent && !callFun[id] {
+					okUse = false
+				}
+				return true
+			})
+			// the literal's names
+			mentioned := map[string]bool{}
+			ast.Inspect(lit, func(n ast.Node) bool {
+				if id, ok := n.(*ast.Ident); ok {
+					mentioned[id.Name] = true
+				}
+				return true
+			})
+			if mentioned[fname] || len(calls) == 0 {
+				okUse = false
+			}
+			// names the literal declares itself (parameters, results, locals) are not free in it
+			for _, fl := range []*ast.FieldList{lit.Type.Params, lit.Type.Results} {
+				if fl != nil {
+					for _, fld := range fl.List {
+						for _, id := range fld.Names {
+							delete(mentioned, id.Name)
+						}
+					}
+				}
+			}
+			ast.Inspect(lit.Body, func(n ast.Node) bool {
+				switch x := n.(type) {
+				case *ast.AssignStmt:
+					if x.Tok == token.DEFINE {
+						for _, l := range x.Lhs {
+							if id, ok := l.(*ast.Ident); ok {
+								delete(mentioned, id.Name)
+							}
+						}
+					}
+				case *ast.RangeStmt:
+					if x.Tok == token.DEFINE {
+						for _, e := range []ast.Expr{x.Key, x.Value} {
+							if id, ok := e.(*ast.Ident); ok {
+								delete(mentioned, id.Name)
+							}
+						}
+					}
+				case *ast.ValueSpec:
+					for _, id := range x.Names {
+						delete(mentioned, id.Name)
+					}
+				}
+				return true
+			})
+			// names declared after the definition, outside the literal
+			if okUse {
+				after := false
+				ast.Inspect(fd.Body, func(n ast.Node) bool {
+					if n == ast.Node(lit) {
+						return false
+					}
+					if n == ast.Node((*defBlock)[defIdx]) {
+						after = true
+						return false
+					}
+					if !after {
+						return true
+					}
+					declare := func(id *ast.Ident) {
+						if mentioned[id.Name] && id.Name != "_" {
+							okUse = false
+						}
+					}
+					switch x := n.(type) {
+					case *ast.AssignStmt:
+						if x.Tok == token.DEFINE {
+							for _, l := range x.Lhs {
+								if id, ok := l.(*ast.Ident); ok {
+									declare(id)
+								}
+							}
+						}
+					case *ast.RangeStmt:
+						if x.Tok == token.DEFINE {
+							for _, e := range []ast.Expr{x.Key, x.Value} {
+								if id, ok := e.(*ast.Ident); ok {
+									declare(id)
+								}
+							}
+						}
+					case *ast.ValueSpec:
+						for _, id := range x.Names {
+							declare(id)
+						}
+					case *ast.TypeSpec:
+						declare(x.Name)
+					case *ast.FuncLit:
+						for _, fl := range []*ast.FieldList{x.Type.Params, x.Type.Results} {
+							if fl != nil {
+								for _, fld := range fl.List {
+									for _, id := range fld.Names {
+										declare(id)
+									}
+								}
+							}
+						}
+					case *ast.TypeSwitchStmt:
+						if as, ok := x.Assign.(*ast.AssignStmt); ok {
+							for _, l := range as.Lhs {
+								if id, ok := l.(*ast.Ident); ok {
+									declare(id)
+								}
+							}
+						}
+					}
+					return true
+				})
+			}
+			if !okUse {
+				// leave this closure; make sure we do not pick it again: rename search by marking
+				// (simplest: stop looking in this function)
+				break
+			}
+			var buf bytes.Buffer
+			if err := format.Node(&buf, fset, lit); err != nil {
+				break
+			}
+			litSrc := buf.String()
+			bad := false
+			for _, c := range calls {
+				e, err := parser.ParseExpr(litSrc)
+				if err != nil {
+					bad = true
+					break
+				}
+				c.Fun = &ast.ParenExpr{X: e}
+			}
+			if bad {
+				break
+			}
+			// drop the definition
+			lst := *defBlock
+			*defBlock = append(append([]ast.Stmt{}, lst[:defIdx]...), lst[defIdx+1:]...)
+			total += len(calls)
+		}
+	}
+	if total == 0 {
+		return src, 0
+	}
+	// positions of the pasted literals are meaningless: print without comments to keep the printer from
+	// misplacing them
+	f.Comments = nil
+	var out bytes.Buffer
+	if err := format.Node(&out, token.NewFileSet(), f); err != nil {
+		return src, 0
+	}
+	return out.Bytes(), total
 }
